@@ -180,6 +180,33 @@ def run(chk: Check):
         else:
             if sorted(sel_preds) != sorted(preds.tolist())[:bs]:
                 chk.fail(f"selected predictions {sorted(sel_preds)} are not the {bs} lowest {sorted(preds.tolist())[:bs]}", case)
+        failed_before = rng.random() < 0.5
+        if failed_before:
+            # an earlier use of the same object that FAILED in the middle of a de-duplication pass (the surrogate's predict raises in the redraw) and a caller
+            # that survives it - as C11 requires of a calibration: whatever was left half-done must not show in the next call
+            import itertools
+            from black_it.search_space import SearchSpace
+            tiny = SearchSpace([[0.0] * sp.dims, [1.0] * sp.dims], [1.0] * sp.dims, False)
+            everything = np.array(list(itertools.product([0.0, 1.0], repeat=sp.dims)))        # a history holding every point of the space: any proposal repeats it
+            calls = {"n": 0}
+
+            def failing_predict(X, _c=calls):  # noqa: N803
+                _c["n"] += 1
+                if _c["n"] >= 2:
+                    raise ch.StubFault("sampler")
+                return np.zeros(len(X))
+            smp.max_deduplication_passes = 2
+            orig_predict = type(smp).predict
+            type(smp).predict = lambda self, X, _f=failing_predict: _f(X)  # noqa: N803
+            try:
+                with quiet():
+                    smp.sample(tiny, everything, np.arange(len(everything), dtype=float))
+                chk.count("select:earlier_call_meant_to_fail_returned")
+            except ch.StubFault:
+                chk.count("select:an_earlier_call_failed_inside_a_deduplication_pass")
+            finally:
+                type(smp).predict = orig_predict
+                smp.max_deduplication_passes = 0
         # the same object asked again, for FEWER points than its batch size and on ANOTHER history (what the de-duplication passes do, and what
         # any caller of the public sample_batch may do): it trains on the history it is given now
         k2 = rng.randint(1, bs)
@@ -187,7 +214,10 @@ def run(chk: Check):
         losses2 = losses2 + 7.0
         log.pop("fit", None)
         with quiet():
-            out2 = smp.sample_batch(k2, sp, pts2, losses2)
+            if failed_before and k2 == bs:
+                out2 = smp.sample(sp, pts2, losses2)
+            else:
+                out2 = smp.sample_batch(k2, sp, pts2, losses2)
         chk.count("select:second_request_smaller_than_batch_size" if k2 < bs else "select:second_request_full_batch")
         if "fit" not in log:
             chk.fail(f"a used surrogate sampler asked for {k2} point(s) (batch size {bs}) on another history did not train at all: its proposals come from the surrogate of the previous history", case)
